@@ -295,7 +295,12 @@ func (p c11) Run(c *core.Ctx) {
 		g.ShuffleOrders()
 		rec := &recorder{seen: map[string][]string{}}
 		scan := &mytagScanner{processors.DefaultTagScanDefinitionRegistryPostProcessor{NodeType: "custom", Tag: "mytag"}}
-		r := world.Start(g.Sc, world.Options{Extra: []any{h, rec, scan}})
+		extra := []any{h, rec, scan}
+		if s%2 == 1 {
+			// an early user post-processor that answers with the properties it handled (none)
+			extra = append(extra, &world.SubsetPP{Ord: []int{1, 3, -7}[s%3], Tag: "no-such-tag"})
+		}
+		r := world.Start(g.Sc, world.Options{Extra: extra})
 		c.Count("starts", 1)
 		if r.Outcome() != "ok" {
 			c.Fail("", fmt.Sprintf("arrangement %d (depth %d) did not start: %s", s, depth, core.Short(r.OutcomeDetail(), 400)),
